@@ -270,7 +270,7 @@ PY_ONLY = {'1e', '$5', '5 @', '!1', '1 = 2', '1 ? 2 : 3', '1 if', 'lambda', '2 *
 PY_EXC = ['[4][1]', '"ab"[2]', '{}[0]', '{}["k"]', '()[0]', '[][0]', "''[0]", 'b"a"[5]', '[1]["a"]', '(1)(2)', '1 .foo',
           '"a"+1', '-"a"', '1<"a"', '"%d"%"x"', '{[]:1}', 'None[0]', 'None.x', '[4][-2]', '"ab"[-3]', '{1:2}[3]', '(0)[0]',
           '[[1]][0][1]', '"a".nope', '[].pop()', '{}.popitem()', '"{}{}".format(1)', '"%(k)d"%{}', '1//0.0', '10.0**1000']
-# non-ASCII text inside an expression (character / string literals): the model is ASCII-only, the oracle still applies
+# non-ASCII text inside an expression (character / string literals): outside the model (non-ASCII is modelled in string / error text and comments only), the oracle still applies
 UNICODE_EXPR = ["'\u00e9'", "'\u2192'", '"\u65e5\u672c"', "'\u00df'", '"\u00fc"[3]', '\u03c0', '1+\u00b5', "'\U0001f600'"]
 # escapes `unicode_escape` rejects: a raw UnicodeDecodeError in the unmodified code (finding KF-C15-esc)
 BAD_ESCAPES = ["'\\'", "'\\x'", "'\\x4'", "'\\u12'", "'\\N{x}'", "'\\U0000'"]
@@ -451,14 +451,12 @@ def _ok_both(asm, src, limit=1800):
 
 def base_program(asm, rnd):
     """text lines of a valid program (assembles in both modes, output < 1800 bytes so that no
-    transfer is near the end of its range), ASCII only"""
+    transfer is near the end of its range); strings may hold non-ASCII text"""
     for _ in range(8):
         lines = progs.gen_program(rnd, size=rnd.randrange(3, 16), fillers=rnd.random() < 0.25)
         texts = []
         for l in lines:
             t = l.text
-            if not t.isascii():
-                t = '    string abcd'
             if '0x200000' in t and rnd.random() < 0.5:
                 t = '    align 4'
             texts.append(t)
